@@ -56,22 +56,30 @@ def hypothesis_round(mod, tier, seed, ctx, rep, excluded, n_examples, t_end):
     import hypothesis
     from hypothesis import given, settings, HealthCheck, Phase, Verbosity
 
-    state = {"last": None, "t_fail": None, "seen": getattr(ctx, "_seen", set())}
+    state = {"last": None, "t_fail": None, "seen": getattr(ctx, "_seen", set()), "failing": {}}
     ctx._seen = state["seen"]
 
     def body(case):
+        sig = decide(case)
+        if sig is not None:
+            raise core.Found(sig)       # the only raise site: Hypothesis keys failures by their origin
+
+    def decide(case):
         now = time.time()
+        h = core.case_hash(case)
         if state["last"] is None:
             if now > t_end:
                 ctx.extra["budget_exhausted"] = True
-                return
+                return None
         else:
-            # shrinking: bounded by our own budget (Hypothesis' cap is 5 min)
+            # shrinking: bounded by our own budget (Hypothesis' cap is 5 min).  Cases already known to fail keep
+            # failing (so that the final replay of the minimal example is consistent); once the budget is used up
+            # new candidates are not evaluated any more.
+            if h in state["failing"]:
+                state["last"] = state["failing"][h]
+                return state["last"][1][0].signature
             if now - state["t_fail"] > SHRINK_BUDGET[tier]:
-                if core.canonical(case) == core.canonical(state["last"][0]):
-                    raise core.Found(state["last"][1][0].signature)
-                return
-        h = core.case_hash(case)
+                return None
         ctx.counting = state["last"] is None and h not in state["seen"]
         state["seen"].add(h)
         vs = core.evaluate(mod, case, ctx)
@@ -81,7 +89,9 @@ def hypothesis_round(mod, tier, seed, ctx, rep, excluded, n_examples, t_end):
             if state["last"] is None:
                 state["t_fail"] = time.time()
             state["last"] = (case, new)
-            raise core.Found(new[0].signature)
+            state["failing"][h] = (case, new)
+            return new[0].signature
+        return None
 
     test = given(mod.strategy(tier))(body)
     test = settings(max_examples=n_examples, database=None, deadline=None,
